@@ -26,8 +26,8 @@ use tvmon::report::*;
 fn main() {
     let ctx = Ctx::from_env("C09", "exploration");
     let deep = !ctx.quick();
-    let n_store = ctx.scale(240, 9000) as u64;
-    let n_index = ctx.scale(64, 1300) as u64;
+    let n_store = ctx.scale(240, 6000) as u64;
+    let n_index = ctx.scale(64, 1000) as u64;
     let slow: std::sync::Mutex<Vec<(f64, String)>> = std::sync::Mutex::new(vec![]);
     let dbg = std::env::var("C09_DEBUG").is_ok();
     let mut rep = run_cases(&ctx, "store", n_store, |c, rng, rep| {
